@@ -267,6 +267,13 @@ def generate(rng, tier):
             cases.append(Case('c15_b85d %s' % hexs(ref_b85(x)), 'b85/dec-2^128', ('b85d', ref_b85(x))))
     for s in ('~' * 20, '0' * 19, '0' * 21, '', '0' * 19 + ' ', '=r54lj&NUUO~Hi%c2ym0', '=r54lj&NUUO~Hi%c2ym1', '=r54lj&NUUO~Hi%c2yl~'):
         cases.append(Case('c15_b85d %s' % hexs(s), 'b85/dec-fixed', ('b85d', s)))
+    # oracle-only: digits that int() would read but the numeral's base does not contain
+    z4 = ref_bits(0, 8, 4, '.')
+    for t in ('\u0661' + z4[1:], '\uff11' + z4[1:], z4[:-1] + '\u00b9'):
+        cases.append(Case(None, 'dec/bits/nonascii', ('dec', 'bits', '4', t)))
+        cases.append(Case(None, 'valid/bits/nonascii', ('valid', 'bits', '4', t)))
+    for t in ('0b\u0661', '0b1\uff10', '\uff100b1'):
+        cases.append(Case(None, 'dec/bin/nonascii', ('dec', 'bin', '6', t)))
     cases.extend(platform_cases.pyint_cases(rng, 150 * mult))
     return cases
 
